@@ -183,10 +183,24 @@ class AsyncHTTP2Connection(AsyncConnectionInterface):
                     # Once the lock is released the stream ID may belong to
                     # another request: whatever happens, it is given up here.
                     stream_given_up = True
-                    with AsyncShieldCancellation():
-                        closing = {"stream_id": stream_id}
-                        async with Trace("response_closed", logger, request, closing):
-                            await self._response_closed(request, stream_id=stream_id)
+                    released = False
+                    try:
+                        with AsyncShieldCancellation():
+                            closing = {"stream_id": stream_id}
+                            async with Trace(
+                                "response_closed", logger, request, closing
+                            ):
+                                released = True
+                                await self._response_closed(
+                                    request, stream_id=stream_id
+                                )
+                    finally:
+                        if not released:
+                            # The trace callback failed, or was cancelled.
+                            with AsyncShieldCancellation():
+                                await self._response_closed(
+                                    request, stream_id=stream_id
+                                )
                     raise
             async with Trace("send_request_body", logger, request, kwargs):
                 await self._send_request_body(request=request, stream_id=stream_id)
@@ -218,8 +232,15 @@ class AsyncHTTP2Connection(AsyncConnectionInterface):
                     await self._request_closed()
                 else:
                     kwargs = {"stream_id": stream_id}
-                    async with Trace("response_closed", logger, request, kwargs):
-                        await self._response_closed(request, stream_id=stream_id)
+                    released = False
+                    try:
+                        async with Trace("response_closed", logger, request, kwargs):
+                            released = True
+                            await self._response_closed(request, stream_id=stream_id)
+                    finally:
+                        if not released:
+                            # The trace callback failed, or was cancelled.
+                            await self._response_closed(request, stream_id=stream_id)
 
             if isinstance(exc, h2.exceptions.ProtocolError):
                 # One case where h2 can raise a protocol error is when a
